@@ -518,6 +518,10 @@ impl<CE: aranya_crypto::Engine> Policy for VmPolicy<CE> {
             PolicyError::Read
         })?;
 
+        if !self.machine.command_defs.contains_key(&kind) {
+            error!("unknown command {kind}");
+            return Err(PolicyError::InternalError);
+        }
         let expected_priority = self.get_command_priority(&kind).into();
         if command.priority() != expected_priority {
             // The command's declared priority comes from the peer, so a
